@@ -88,7 +88,7 @@ PROPS = {
     "C17": dict(
         cases_mod="CasesCron", check_fn="check_C17",
         rule="satisfiable schedules (fixed set incl. 29 Feb, day 31, 13th-or-Friday, weekday 7, plus grammar-generated ones filtered for satisfiability) x second-granular start instants (month ends, leap days, year ends, 23:59:59.x) x histories of 1-6 (advance clock, next) steps with advances from {0,1,59,60,61 s, 1 h, 1 d - 1 s, 1 d, 31 d, 40 d, 400 d} and random; a clone taken mid-history must continue identically. Clock pinned through hook H1. Non-trivial: histories of more than one call.",
-        explanation="Soundness/least-match theorems are stated about the executable model of the iterator (see props/C17.v for what is proved and what is only checked by the run); figures describe the differential run.",
+        explanation="Proved for the model (props/C17.v): whenever next() returns, the time is the least matching minute above both the clock's minute and the previous result, for every history (C17_next_sound, C17_history); when a matching minute lies ahead, at least 31 days before the end of the range, next() does return without panic or error, given fuel for the distance (C17_next_total); hence it returns exactly the least matching minute (C17_next). The run pins the clock through hook H1 and compares with a brute-force least-match oracle.",
         trusted_base=TB_COMMON + ["hook H1 (cargo feature astrolabe_verif): thread-local clock pin read by CronSchedule::next"], assumptions=ASSUME_COMMON + ["the wall clock is a parameter of the model; the pinned clock replaces DateTime::now() inside next()"],
     ),
     "C18": dict(
